@@ -3,4 +3,4 @@ CHECK = {"level": "model_checking", "engine": "E-SCHED",
          "text": "The real Queue (queue.go instrumented by go/ast from the current tree: sync->vsync, scheduling points before channel operations, select order as a choice) is driven by 2-3 writer threads, a flusher, a consumer and its own goroutine and batch timer; every schedule within the deviation bounds is executed and the statement's invariants are checked on each.",
          "note": "Bounds: preemptions<=2 (3 thorough), select-order deviations<=1 (2), early timer firings<=1 (2), 6 scenarios. Sequentially consistent memory; unsynchronised accesses are outside this check.",
          "instrument": [{"file": "queue/queue.go"}],
-         "parts": [part("sched", "queue", "^TestVerif_C24$", shards=16, timeout_quick=600, timeout_thorough=3000)]}
+         "parts": [part("sched", "queue", "^TestVerif_C24$", shards=16, timeout_quick=600, timeout_thorough=3000, budget_thorough=1200)]}
